@@ -1288,7 +1288,8 @@ package reftable
 //@   ensures result1 != nil ==> result0 == nil
 
 //@ func (*Writer).newBlockWriter
-//@   props C14
+//@   props C14 C02
+//@   requires[no-unflushed-block-is-dropped] w.blockWriter == nil || w.blockWriter.entries == 0
 //@   requires w != nil && len(w.block) == w.cfg.BlockSize && 34 <= w.cfg.BlockSize && w.cfg.BlockSize < 16777216 && w.cfg.RestartInterval != 0 && (w.cfg.HashID == NullHashID || w.cfg.HashID == SHA1ID || w.cfg.HashID == SHA256ID)
 //@   modifies w.block[0:len(w.block)]
 //@   ensures result != nil && fresh(result) && bwOK(result) && result.buf == w.block && result.headerOff <= 28 && result.entries == 0 && len(result.restarts) == 0
@@ -1399,6 +1400,11 @@ package reftable
 //@   modifies w.ALLFIELDS, anyof(*blockWriter), anyof([]byte), anyof([]indexRecord), anyof([]uint32)
 //@   ensures[inv] result == nil ==> wOK(w)
 //@   ensures[flushed] result == nil && old(w.blockWriter) != nil && old(w.blockWriter.entries) > 0 ==> w.blockWriter == nil
+//@   ensures[empty-block-kept] old(w.blockWriter) != nil && old(w.blockWriter.entries) == 0 ==> result == nil && w.blockWriter == old(w.blockWriter) && w.blockWriter.entries == 0 && w.index == old(w.index)
+//@   ensures[one-index-entry-per-flushed-block] result == nil && old(w.blockWriter) != nil && old(w.blockWriter.entries) > 0 ==> len(w.index) == old(len(w.index)) + 1
+//@   ensures[index-entry-names-last-key-and-position] result == nil && old(w.blockWriter) != nil && old(w.blockWriter.entries) > 0 ==> w.index[len(w.index)-1].LastKey == old(w.blockWriter.lastKey) && w.index[len(w.index)-1].Offset == old(w.next)
+//@   ensures[earlier-index-entries-kept] result == nil && old(w.blockWriter) != nil && old(w.blockWriter.entries) > 0 ==> (forall k int :: 0 <= k && k < old(len(w.index)) ==> w.index[k] == old(w.index[k]))
+//@   ensures[nothing-to-flush] old(w.blockWriter) == nil ==> result == nil && w.index == old(w.index) && w.blockWriter == nil
 //@   ensures[config-kept] w.cfg == old(w.cfg) && w.block == old(w.block) && w.lastKey == old(w.lastKey) && w.minUpdateIndex == old(w.minUpdateIndex) && w.maxUpdateIndex == old(w.maxUpdateIndex)
 
 // C14 (keys strictly ascending within and across blocks): add refuses - by panicking, here a precondition - a key that is
@@ -1437,7 +1443,22 @@ package reftable
 //@   pure
 //@   ensures len(s) < len(substr) ==> !result
 
-// trusted (section index, object index): ends the current section; afterwards no block is under construction
+// C14/C02 (every index entry names an existing child block, at every level; index sections do not leak): finishSection
+// flushes the last block of the section, then writes index levels until at most `threshold` blocks remain at the top.
+// No block that holds entries is ever replaced without having been flushed (requires of newBlockWriter), and when the
+// section is finished the list of pending index entries is empty.
+//@ func (*Writer).finishSection
+//@   props C14 C02
+//@   requires wOK(w) && w.blockWriter != nil
+//@   modifies w.ALLFIELDS, anyof(*blockWriter), anyof([]byte), anyof([]uint32), anyof([]indexRecord)
+//@   ensures[inv] result == nil ==> wOK(w)
+//@   ensures[index-entries-do-not-leak] result == nil ==> len(w.index) == 0
+//@   ensures[nothing-left-unflushed] result == nil ==> w.blockWriter == nil || w.blockWriter.entries == 0
+//@   ensures[config-kept] w.cfg == old(w.cfg) && w.block == old(w.block)
+//@   loop 1 invariant[outer] wOK(w) && w.cfg == old(w.cfg) && w.block == old(w.block) && (w.blockWriter == nil || w.blockWriter.entries == 0)
+//@   loop 2 invariant[inner] -1 <= rangeindex && rangeindex < len(idx) && wOK(w) && w.cfg == old(w.cfg) && w.block == old(w.block) && w.blockWriter != nil
+
+// trusted (object index): ends the current section; afterwards no block is under construction
 //@ func (*Writer).finishPublicSection
 //@   trusted
 //@   requires wOK(w)
